@@ -190,6 +190,7 @@ impl Property for C09 {
             "dropout_in_feedback",
             "learn_with_validation",
             "empty_training_set",
+            "no_top_level_trainable_layer",
             "learn_then_learn",
             "validate_outside_training",
             "epochs_ge_2_with_validation",
@@ -214,6 +215,33 @@ impl Property for C09 {
             }
         }
         let scale_case = scale_case && !very_wide(&net);
+        // now and then a network without any top-level dense / convolution / deconvolution
+        // layer: feedback blocks only (`validate` refuses such a network, `learn` without
+        // validation data and `predict` do not)
+        let mut headless = false;
+        if !scale_case && rng.chance(0.04) {
+            let width = rng.pick(&[2usize, 3, 4, 5]);
+            let mut blocks = Vec::new();
+            for _ in 0..12 {
+                if let Some(b) = gen_feedback(rng, &opts, ShapeCfg::Flat(width), 4) {
+                    if b.dropout().is_some() || !blocks.is_empty() {
+                        blocks.push(b);
+                    }
+                }
+                if blocks.len() >= rng.range(1, 2) {
+                    break;
+                }
+            }
+            if !blocks.is_empty() {
+                let mut n = NetCfg::plain(ShapeCfg::Flat(width), blocks);
+                n.optimizer = net.optimizer.clone();
+                n.objective = Obj::MSE;
+                if n.shapes().is_some() && n.has_dropout() {
+                    net = n;
+                    headless = true;
+                }
+            }
+        }
         // now and then an empty training set: `learn` then has no batch to step on, but it
         // still toggles the flags, validates every epoch and has to leave evaluation mode
         let n = if scale_case {
@@ -248,6 +276,15 @@ impl Property for C09 {
             let at = rng.below(ops.len());
             ops[at] = Op::Learn { epochs: rng.range(1, 4) as i32, with_val: true, tol: None, print: None };
         }
+        if headless {
+            for op in ops.iter_mut() {
+                *op = match op.clone() {
+                    Op::Learn { epochs, print, .. } => Op::Learn { epochs, with_val: false, tol: None, print },
+                    Op::Validate => Op::Predict,
+                    other => other,
+                };
+            }
+        }
         let (clock, _) = draw_clock(rng);
         let env = draw_env(rng, clock, true);
         Case { net, env, train, batch, val, ops }
@@ -279,6 +316,7 @@ impl Property for C09 {
         stats.probe("dropout_in_feedback", in_fb);
         let learns: Vec<usize> = case.ops.iter().enumerate().filter(|(_, o)| matches!(o, Op::Learn { .. })).map(|(i, _)| i).collect();
         stats.probe("empty_training_set", case.train.len() == 0);
+        stats.probe("no_top_level_trainable_layer", case.net.layers.iter().all(|l| matches!(l, LayerCfg::Feedback { .. } | LayerCfg::Maxpool { .. })));
         stats.probe("learn_with_validation", case.ops.iter().any(|o| matches!(o, Op::Learn { with_val: true, .. })));
         stats.probe("epochs_ge_2_with_validation", case.ops.iter().any(|o| matches!(o, Op::Learn { with_val: true, epochs, .. } if *epochs >= 2)));
         stats.probe("early_stop_fired", false);
